@@ -356,6 +356,16 @@ pub fn allow_check<'a>(ctx: &mut Ctx, w: &'a World, nonce_s: &Scalar, amount: i6
     let context = zkabacus_crypto::Context::new(ctx_bytes);
     let out = w.merchant.allow_payment(&mut rng, amount_of(amount), &nonce, proof, &context);
     let rec = verif_hooks::drain_challenges();
+    if rec.is_empty() && out.is_none() {
+        ctx.count(&format!("allow:{}:refused-without-deriving-a-challenge", what));
+        if expect == Some(true) {
+            ctx.violation(
+                &format!("allow_payment returned None on {} (without even deriving a challenge), expected Some", what),
+                json!({"class": what, "nonce": hex_s(nonce_s), "amount": amount, "context": hex::encode(ctx_bytes), "proof_bytes": hex::encode(d.bytes(&book))}),
+            );
+        }
+        return None;
+    }
     if rec.len() != 1 {
         ctx.broken(&format!("allow_payment derived {} challenges, expected 1", rec.len()));
         return None;
